@@ -763,7 +763,7 @@ func U%[1]d() {
 		// hundreds of distinct (interface, concrete type) pairs in one unit: conversions made before and after the
 		// run-time itab table has grown must agree (equality of interface-typed array elements, interface map keys)
 		p := g.pkgOrMain()
-		nt, ni := g.n(14, 26, "ntypes"), g.n(14, 26, "nifaces")
+		nt, ni := g.n(18, 26, "ntypes"), g.n(18, 26, "nifaces")
 		var b strings.Builder
 		fmt.Fprintf(&b, "type mb%d struct{}\n\n", u)
 		for i := 0; i < ni; i++ {
